@@ -87,7 +87,8 @@ TIERS = {
 }
 
 
-# Directed histories for open known findings (known_findings.json): the check reproduces each on the tree it runs on.
+# Directed histories of known findings (known_findings.json): replayed on the tree the check runs on.  (F8, now fixed
+# as D11: kept as a regression.)
 F8_SHAPE = {"states": ["a", "m", "d"], "first": "a", "default": "d", "auto": False, "mf": ["m"],
             "durOf": {"a": -1, "m": -1, "d": -1}, "nextOf": {"a": "none", "m": "none", "d": "none"}}
 F8_EVENTS = [
@@ -276,7 +277,8 @@ def judge(prop, out, traces, canary, verdicts, st):
                 "key": {"module": "MagicSM", "clause": sorted(v["clauses"])[0],
                         "branch": (v.get("br") or [""])[0], "branches": "+".join(v.get("br") or [])}})
         if v["v"] == "ACCEPT" and tid >= 3000000:
-            out.notes.setdefault("directed_histories_not_reproducing", []).append(tid)
+            # directed histories of findings that have been fixed since: regressions, accepted like any other trace
+            out.notes.setdefault("directed_histories_accepted", []).append(tid)
         if v["v"] == "ACCEPT":
             for b in v.get("seen", []):
                 seen_all[b] = seen_all.get(b, 0) + 1
